@@ -236,12 +236,42 @@ def _forms():
     return out
 
 
+def _hier():
+    """Hierarchical queries: START WITH / CONNECT BY in both orders, PRIOR on either side / twice / over a parenthesis / next
+    to a subquery, a CONNECT BY nested inside the condition of another one, inside derived tables / CTEs / set operands, and the
+    word `prior` as an ordinary identifier before, after and beside them (PRIOR is an operator only inside CONNECT BY)."""
+    out = []
+    conds = [("PRIOR a = b", "prior_left"), ("a = PRIOR b", "prior_right"), ("PRIOR a = b AND PRIOR c = d", "two_priors"), ("NOCYCLE PRIOR a = b", "nocycle"), ("a = b", "no_prior"),
+             ("PRIOR a = (SELECT MAX(b) FROM u)", "subquery"), ("PRIOR a = (SELECT b FROM u START WITH b = 1 CONNECT BY PRIOR b = c) AND PRIOR d = e", "nested_connect"),
+             ("PRIOR a = (SELECT b FROM u CONNECT BY PRIOR b = c)", "nested_connect_last"), ("PRIOR (a + 1) = b", "prior_paren"), ("PRIOR a + 1 = b", "prior_arith"),
+             ("PRIOR a = b OR a IN (SELECT prior FROM u)", "prior_ident_in_subquery")]
+    heads = [("SELECT a FROM t", "plain"), ("SELECT a, LEVEL, CONNECT_BY_ROOT a AS r FROM t", "level_root"), ("SELECT prior, a FROM t", "prior_ident"), ("SELECT a FROM t WHERE a > 1", "where")]
+    tails = [("", ()), (" ORDER BY a", ("hier.order",)), (" ORDER SIBLINGS BY a", ("hier.siblings",)), (" GROUP BY a", ("hier.group",))]
+    qs = []
+    for c, ct in conds:
+        for h, ht in heads:
+            for form, ft in ((f"{h} START WITH a IS NULL CONNECT BY {c}", "start_connect"), (f"{h} CONNECT BY {c} START WITH a IS NULL", "connect_start"), (f"{h} CONNECT BY {c}", "connect")):
+                for tl, tt in tails:
+                    if tl and (ht != "plain" or ft != "start_connect"):
+                        continue
+                    qs.append((form + tl, (f"hier.{ct}", f"hier.{ht}", f"hier.{ft}") + tt))
+    out.extend(qs)
+    for q, tags in qs:
+        if tags[1] == "hier.plain" and tags[2] == "hier.start_connect" and len(tags) == 3:
+            out.append((f"SELECT * FROM ({q}) AS s", tags + ("hier.in_derived",)))
+            out.append((f"WITH c AS ({q}) SELECT prior FROM c", tags + ("hier.in_cte_then_prior_ident",)))
+            out.append((f"{q} UNION ALL SELECT prior FROM u", tags + ("hier.union_prior_ident",)))
+            out.append((f"SELECT prior, (SELECT MAX(a) FROM ({q}) AS s) AS m FROM u", tags + ("hier.scalar_after_prior_ident",)))
+            out.append((f"SELECT a FROM t; {q}; SELECT prior FROM t", tags + ("hier.script",)))
+    return out
+
+
 @functools.lru_cache(None)
 def clause_statements() -> tuple:
     """(sql, tags) for every statement of the clause-subset spaces (written in the common SQL spelling; each dialect parses what
     it can - statements a dialect rejects are outside its space)."""
     seen, out = set(), []
-    for gen in (_select, _dml, _ddl, _setops, _windows, _joins, _forms):
+    for gen in (_select, _dml, _ddl, _setops, _windows, _joins, _forms, _hier):
         for sql, tags in gen():
             if sql not in seen:
                 seen.add(sql)
